@@ -30,7 +30,8 @@ auto gemv_n(Context ctxt, typename MIt::element a, MIt m_first, Size count, XIt 
 		else if((*m_first).stride()==1) {ctxt->gemv('T', (*m_first).size(), count, &a, m_first.base()            ,   m_first .stride(), x_first.base(), x_first.stride(), &b, y_first.base(), y_first.stride());}
 		else                           {assert(0); /*throw gemv_stride_error{"not BLAS-implemented"};*/}  // LCOV_EXCL_LINE
 	} else {
-		if     ((*m_first).stride()==1) {ctxt->gemv('C', (*m_first).size(), count, &a, underlying(m_first.base()), m_first. stride(), x_first.base(), x_first.stride(), &b, y_first.base(), y_first.stride());}
+		// with a single row the row stride is irrelevant; it must still be a valid leading dimension for BLAS (lda >= max(1, m))
+		if     ((*m_first).stride()==1) {ctxt->gemv('C', (*m_first).size(), count, &a, underlying(m_first.base()), (count == 1 && m_first.stride() < (*m_first).size()) ? (*m_first).size() : m_first. stride(), x_first.base(), x_first.stride(), &b, y_first.base(), y_first.stride());}
 		else                           {assert(0); /*throw gemv_stride_error{"not BLAS-implemented"};*/}  // LCOV_EXCL_LINE
 	}
 
